@@ -27,9 +27,62 @@ ASSUMPTIONS = ['np.searchsorted(a, v, side="right") on a sorted array = number o
                'np.sum/np.minimum/np.maximum/np.abs/np.diff behave as documented; summation order and rounding are '
                'not modelled: model on Float vs numpy compared to 1e-10 relative + 1e-12*max|spectrum|',
                'the code is point-wise in the leading axes of an N-D spectrum (each row is binned separately by the '
-               'model and compared)']
+               'model and compared)',
+               'source tie: the numpy primitives are the definitions of lean/TaurexModel/Gen/Prelude.lean (element-wise ops with 1-D broadcasting, slices, searchsorted = count, stable argsort, masks, np.where, take); the list dialect of the translator (harness/translate_list.py) is part of the trusted base',
+               'source tie: np.histogram is instantiated by C05Src.npHistogram / npHistogramW (Proofs/C05SrcNp.lean)']
 
 REL = 1e-10
+
+# source tie (harness/translate_list.py, list dialect): the functions below are re-translated from the taurex source text
+# on every run into lean/TaurexModel/Gen/SrcC05.lean; lean/Props/C05Src.lean proves each equal to the model of
+# TaurexModel/Binning.lean.  `FluxBinner.bindown` / `__init__` are translated once per calling pattern (a parameter of kind
+# 'none' is one the caller leaves at None: the tests on it are decided at translation time).
+_FB = 'taurex/binning/fluxbinner.py'
+_FB_ATTRS = {'self._wngrid': ('u_wngrid', 'list'), 'self._wngrid_width': ('u_wngrid_width', 'list')}
+_FB_RAISE = '([], [])'
+_SB = 'taurex/binning/simplebinner.py'
+_SB_ATTRS = {'self._wngrid': ('u_wngrid', 'list'), 'self._wn_width': ('u_wn_width', 'list')}
+_HIST = ('tuple', ('list', 'list'))
+SRC_SPECS = [
+    dict(dialect='list', module='taurex/util/util.py', func='compute_bin_edges', lean='compute_bin_edges',
+         params=dict(wngrid='list')),
+    dict(dialect='list', module='taurex/util/util.py', func='wnwidth_to_wlwidth', lean='wnwidth_to_wlwidth',
+         params=dict(wngrid='list', wnwidth='list')),
+    # util.bindown (1-D data): np.histogram is an external, one Lean parameter per calling form
+    dict(dialect='list', module='taurex/util/util.py', func='bindown', lean='util_bindown',
+         params=dict(original_bin='list', original_data='list', new_bin='list', last_point='none'),
+         vexternals={'np.histogram': dict(lean='histogram', args=['list', 'list'], ret=_HIST),
+                     'np.histogram(weights)': dict(lean='histogram_weights', args=['list', 'list', 'list'], ret=_HIST)}),
+    dict(dialect='list', module=_SB, cls='SimpleBinner', func='__init__', lean='simplebinner_init_none',
+         params=dict(wngrid='list', wngrid_width='none'), attrs=_SB_ATTRS, state=['self._wngrid', 'self._wn_width']),
+    dict(dialect='list', module=_SB, cls='SimpleBinner', func='__init__', lean='simplebinner_init_array',
+         params=dict(wngrid='list', wngrid_width='list'), attrs=_SB_ATTRS, state=['self._wngrid', 'self._wn_width']),
+    dict(dialect='list', module=_SB, cls='SimpleBinner', func='bindown', lean='simplebinner_bindown',
+         params=dict(wngrid='list', spectrum='list', grid_width='none', error='none'), attrs=_SB_ATTRS),
+    dict(dialect='list', module='taurex/binning/nativebinner.py', cls='NativeBinner', func='bindown',
+         lean='nativebinner_bindown', params=dict(wngrid='list', spectrum='list', grid_width='list', error='list')),
+    dict(dialect='list', module=_FB, cls='FluxBinner', func='bindown', lean='fluxbinner_bindown', callname='self.bindown',
+         params=dict(wngrid='list', spectrum='list', grid_width='none', error='none'), attrs=_FB_ATTRS),
+    dict(dialect='list', module=_FB, cls='FluxBinner', func='bindown', lean='fluxbinner_bindown_w',
+         params=dict(wngrid='list', spectrum='list', grid_width='list', error='none'), attrs=_FB_ATTRS),
+    dict(dialect='list', module=_FB, cls='FluxBinner', func='bindown', lean='fluxbinner_bindown_e',
+         params=dict(wngrid='list', spectrum='list', grid_width='none', error='list'), attrs=_FB_ATTRS),
+    dict(dialect='list', module=_FB, cls='FluxBinner', func='bindown', lean='fluxbinner_bindown_we',
+         params=dict(wngrid='list', spectrum='list', grid_width='list', error='list'), attrs=_FB_ATTRS),
+    # Binner.bin_model(model_output) -> self.bindown(model_output[0], model_output[1]) (here: FluxBinner's)
+    dict(dialect='list', module='taurex/binning/binner.py', cls='Binner', func='bin_model', lean='bin_model',
+         params=dict(model_output=('tuple', ('list', 'list')))),
+    # FluxBinner.__init__: the result is the final value of (self._wngrid, self._wngrid_width)
+    dict(dialect='list', module=_FB, cls='FluxBinner', func='__init__', lean='fluxbinner_init_none',
+         params=dict(wngrid='list', wngrid_width='none'), attrs=_FB_ATTRS, state=['self._wngrid', 'self._wngrid_width'],
+         raise_value=_FB_RAISE),
+    dict(dialect='list', module=_FB, cls='FluxBinner', func='__init__', lean='fluxbinner_init_scalar',
+         params=dict(wngrid='list', wngrid_width='s'), attrs=_FB_ATTRS, state=['self._wngrid', 'self._wngrid_width'],
+         raise_value=_FB_RAISE),
+    dict(dialect='list', module=_FB, cls='FluxBinner', func='__init__', lean='fluxbinner_init_array',
+         params=dict(wngrid='list', wngrid_width='list'), attrs=_FB_ATTRS, state=['self._wngrid', 'self._wngrid_width'],
+         raise_value=_FB_RAISE),
+]
 
 
 # ----------------------------------------------------------------------------------------------- generators
